@@ -12,13 +12,18 @@ SHARD = 200
 RULE = ("@async_generator() bodies = step trees over {await future (ConstFuture/ErrorFuture | asynq task | task blocked on a "
         "DebugBatchItem; outcome value / END marker / error), yield Value(v), raise, nested async generator iterated as "
         "documented, yield of a non-Value non-future awaitable: None (bare pause / conditional await whose condition is false), "
-        "tuple / list / dict (empty ones included, nested <= 2) of futures and None}; exhaustive part: every body over {await, value} up to length 6 (quick) / 8 (thorough) x take_first n in 0..9 "
+        "tuple / list / dict (empty ones included, nested <= 2) of futures and None}; the payload v of Value(v) is None, an int, a tuple / list "
+        "(nested <= 2, may hold futures) or a FUTURE the consumer is to receive as an object: unstarted asynq task, computed task, ConstFuture, "
+        "ErrorFuture, lazy Future, unflushed DebugBatchItem; the same future object may be yielded twice; exhaustive part: every body over {await, value} up to length 6 (quick) / 8 (thorough) x take_first n in 0..9 "
         "followed by a second consumer op, and every body over {await, value, non-Value yield} with >= 1 such yield up to length 4 "
-        "(quick) / 6 (thorough) x n in 0..4 / 0..7 with op lists built from take_first / next+value / list_of_generator; random part: bodies up to length 20, nesting depth <= 2, failing awaits, raising "
+        "(quick) / 6 (thorough) x n in 0..4 / 0..7 with op lists built from take_first / next+value / list_of_generator, and every body over "
+        "{await, Value(data), Value(future)} with >= 1 future payload up to length 4 (quick) / 6 (thorough) x n in 0..4 / 0..6 (single and repeated take_first); random part: bodies up to length 20, nesting depth <= 2, failing awaits, raising "
         "bodies, op lists of length 1..8 over next / task.value() / list_of_generator / take_first(n), called directly or from "
         "another asynq task; protocol-violating op lists (next before the previous task is computed) are the malformed stream; "
         "distinct = different (body without future kinds, op list); non-trivial = body has >= 1 await / non-Value yield and >= 1 Value")
-TRUSTED = ["the scheduler is exercised, not modelled: the model only assumes that a yielded future is computed before the "
+TRUSTED = ["future payloads are canonicalised by object identity (label = id given by the generator), never by their result; "
+           "the model carries the label as an opaque val (C17_payload_opaque)",
+           "the scheduler is exercised, not modelled: the model only assumes that a yielded future is computed before the "
            "task that yielded it is resumed (C01/C03 are about that)",
            "CountingGen (harness wrapper that counts generator.send calls) forwards to a real Python generator"]
 ASSUMPTIONS = ["a body yields a Value, a single future, None, or a tuple/list/dict (nested <= 2) of futures and None; futures inside a "
@@ -28,11 +33,42 @@ ASSUMPTIONS = ["a body yields a Value, a single future, None, or a tuple/list/di
                "the model is of take_first WITH the repair work/fixes/C17-take-first-zero.diff; the unrepaired loop is Gen.take_first_orig (refuted at n = 0 in props/C17.v)"]
 
 KINDS = ["AConst", "ATask", "ABatch"]
+# what a Value may hold besides plain data: a future the consumer is to receive AS AN OBJECT
+# (unstarted task to be batched by the consumer, computed task, ConstFuture, ErrorFuture, lazy Future, unflushed batch item)
+PKINDS = ["PTaskNew", "PTaskDone", "PConst", "PErr", "PLazy", "PBatch"]
+UNSTARTED = ("PTaskNew", "PLazy", "PBatch")
 
 
 # ------------------------------------------------------------------ generation
 def _val(rng):
     return "VNone" if rng.random() < 0.08 else {"VInt": [rng.randrange(0, 60)]}
+
+
+def _fut_payload(rng, ids):
+    """a future as payload; now and then the SAME object is yielded again (same id, same kind)"""
+    if ids and rng.random() < 0.1:
+        return {"PFut": list(rng.choice(ids))}
+    k = rng.choice(PKINDS + ["PTaskNew", "PTaskNew"])
+    ids.append((k, len(ids) + 1))
+    return {"PFut": [k, len(ids)]}
+
+
+def _data_payload(rng, ids, fut_p=0.0, depth=2):
+    r = rng.random()
+    if r < 0.45 or depth == 0:
+        return {"VInt": [rng.randrange(0, 60)]}
+    if r < 0.55:
+        return "VNone"
+    mem = [(_fut_payload(rng, ids) if rng.random() < fut_p else _data_payload(rng, ids, fut_p, depth - 1))
+           for _ in range(rng.choice([0, 1, 2, 2, 3]))]
+    return {rng.choice(["VTuple", "VList"]): [mem]}
+
+
+def _payload(rng, ids, fut_p):
+    """what goes into Value(...): a future (probability fut_p), else None / int / tuple / list (which may hold futures)"""
+    if rng.random() < fut_p:
+        return _fut_payload(rng, ids)
+    return _data_payload(rng, ids, 0.3)
 
 
 def _await(rng, i, fail_p=0.0, end_p=0.0):
@@ -73,18 +109,22 @@ def _aw(rng, fail_p=0.0, depth=2, none_p=0.5):
     return {k: [mem]}
 
 
-def gen_body(rng, maxlen, depth, fail_p, raise_p, end_p, yield_p=0.0):
+def gen_body(rng, maxlen, depth, fail_p, raise_p, end_p, yield_p=0.0, pay_p=0.0, ids=None):
     n = rng.randrange(0, maxlen + 1)
     b = []
+    ids = [] if ids is None else ids
     for _ in range(n):
         if yield_p and rng.random() < yield_p:
             b.append({"NYield": [_aw(rng, fail_p)]})
+            continue
+        if pay_p and rng.random() < 0.45:
+            b.append({"NValue": [_payload(rng, ids, pay_p)]})
             continue
         r = rng.random()
         i = next(_ctr) % 300
         nest_p = 0.15 if depth > 0 else 0.0
         if r < nest_p:
-            b.append({"NNest": [gen_body(rng, max(1, maxlen // 2), depth - 1, fail_p, raise_p, end_p, yield_p)]})
+            b.append({"NNest": [gen_body(rng, max(1, maxlen // 2), depth - 1, fail_p, raise_p, end_p, yield_p, pay_p, ids)]})
         elif r < nest_p + raise_p:
             b.append({"NRaise": [700 + i]})
         elif r < 0.58:
@@ -169,7 +209,62 @@ def exhaustive_yields(rng, maxlen, nmax):
     return cs
 
 
+def exhaustive_payloads(rng, maxlen, nmax):
+    """Every body over {await, Value(data), Value(<a future>)} that has at least one Value holding a future, x n:
+    the future payload sits first in the body, directly after another Value, after an await, last, alone."""
+    cs = []
+    tails = [[], ["OList"], [{"OTake": [1]}, "OList"], ["ONext", "OCompute", "OList"], ["ONext", "ONext"],
+             [{"OTake": [2]}, {"OTake": [0]}, "OList"], ["ONext", "OCompute", "ONext", "OCompute", "ONext"]]
+    for L in range(1, maxlen + 1):
+        for mask in itertools.product("avf", repeat=L):
+            if "f" not in mask:
+                continue
+            for n in range(0, nmax + 1):
+                body, ids = [], []
+                for i, ch in enumerate(mask):
+                    if ch == "a":
+                        body.append({"NAwait": [rng.choice(KINDS), {"TVal": [{"VInt": [100 + i]}]}]})
+                    elif ch == "v":
+                        body.append({"NValue": [_data_payload(rng, ids, 0.3)]})
+                    else:
+                        body.append({"NValue": [_fut_payload(rng, ids)]})
+                t = rng.choice(tails)
+                r = rng.random()
+                if r < 0.2:
+                    ops = ["OList"] + t
+                elif r < 0.35:
+                    ops = ["ONext", "OCompute", {"OTake": [n]}] + t
+                elif r < 0.5:
+                    ops = [{"OTake": [rng.randrange(0, 3)]}, {"OTake": [n]}] + t      # repeated take_first on the same generator
+                else:
+                    ops = [{"OTake": [n]}] + t
+                cs.append(_case(body, ops, exhaustive=True, payloads=True, via=("task" if rng.random() < 0.3 else "sync")))
+    return cs
+
+
 def gen_cases(rng, tier):
+    cs = _gen_cases_yields(rng, tier)
+    # round 8: the payload of a Value (appended after the older streams so that those stay exactly what they were)
+    quick = tier == "quick"
+    cs += exhaustive_payloads(rng, 4, 4) if quick else exhaustive_payloads(rng, 6, 6)
+    for _ in range(300 if quick else 8000):
+        r = rng.random()
+        malformed = rng.random() < 0.2
+        pp = rng.choice([0.3, 0.5, 0.8])
+        yp = rng.choice([0.0, 0.0, 0.2])
+        if r < 0.45:      # clean flat
+            body = gen_body(rng, 12, 0, 0.0, 0.0, 0.0, yp, pp)
+        elif r < 0.75:    # clean nested: the inner generator's payloads pass through `x = yield task; yield Value(x)`
+            body = gen_body(rng, 9, 2, 0.0, 0.0, 0.0, yp, pp)
+        elif r < 0.9:     # failing awaits / raising bodies
+            body = gen_body(rng, 10, 0, 0.15, 0.05, 0.05, yp, pp)
+        else:
+            body = gen_body(rng, 9, 2, 0.1, 0.04, 0.05, yp, pp)
+        cs.append(_case(body, gen_ops(rng, malformed), malformed=malformed, payloads=True, via=("task" if rng.random() < 0.3 else "sync")))
+    return cs
+
+
+def _gen_cases_yields(rng, tier):
     cs = _gen_cases_base(rng, tier)
     # appended after the older streams so that those stay exactly what they were
     quick = tier == "quick"
@@ -221,6 +316,10 @@ def _v(i):
     return {"NValue": [{"VInt": [i]}]}
 
 
+def _vf(kind, i):
+    return {"NValue": [{"PFut": [kind, i]}]}
+
+
 _P = {"NYield": ["WNone"]}          # `yield None` / bare `yield` / `yield (fut if cond else None)` with cond false
 
 CORPUS = [
@@ -254,6 +353,15 @@ CORPUS = [
     _case([{"NYield": [{"WTuple": [[]]}]}, _v(1), {"NYield": [{"WList": [["WNone", {"WFut": ["ATask", {"Ok": [{"VInt": [3]}]}]}]]}]}, _v(2),
            {"NNest": [[_P, _v(3), {"NYield": [{"WDict": [[{"": [1, {"WFut": ["ABatch", {"Ok": [{"VInt": [4]}]}]}]}]]}]}, _P]]}, _v(4), _P],
           [{"OTake": [1]}, "ONext", "OCompute", "OList", "ONext"], corpus=True),
+    # the payload of a Value is a future the consumer is to receive as an object.  An unstarted task, first thing in the body:
+    _case([_vf("PTaskNew", 1)], ["OList"], corpus=True),
+    # ... two in a row after an await (the consumer batches them), an await after the last Value, taken in chunks
+    _case([_a("ATask", _ok(5)), _vf("PTaskNew", 1), _vf("PTaskNew", 2), _a("ATask", _ok(6)), _vf("PTaskNew", 3), _vf("PBatch", 4), _a("ATask", _ok(7))],
+          [{"OTake": [0]}, {"OTake": [1]}, {"OTake": [2]}, {"OTake": [5]}], corpus=True),
+    # ... already computed futures, a lazy one, data that holds futures; one by one, then the rest; through a nested generator
+    _case([_vf("PConst", 1), _a("AConst", _ok(5)), _vf("PConst", 2), {"NValue": [{"VTuple": [[{"PFut": ["PLazy", 3]}, {"VInt": [7]}]]}]},
+           {"NNest": [[_vf("PTaskDone", 4), _vf("PErr", 5), _a("ATask", _ok(6)), _vf("PTaskNew", 6)]]}],
+          ["ONext", "OCompute", "ONext", "OCompute", "OList"], corpus=True),
 ]
 
 
@@ -298,12 +406,49 @@ def _aw_kind(w):
     return {"WTuple": "tuple", "WList": "list", "WDict": "dict"}[k] + ("-empty" if not _aw_members(w) else "")
 
 
+def _label(p):
+    """The model's name for the object in a Value: data is itself, a future is an opaque label made of its id (Gen.v carries
+    payloads without ever looking at them: GenProofs.run_relabel); the runner canonicalises results the same way, by IDENTITY."""
+    if p == "VNone":
+        return p
+    (k, a), = p.items()
+    if k == "PFut":
+        return {"VTuple": [[{"VInt": [-1]}, {"VInt": [a[1]]}]]}
+    if k in ("VTuple", "VList"):
+        return {k: [[_label(x) for x in a[0]]]}
+    return p
+
+
+def _pay_kind(p):
+    if p == "VNone":
+        return "None"
+    (k, a), = p.items()
+    if k == "PFut":
+        return "future:" + a[0]
+    if k in ("VTuple", "VList"):
+        return {"VTuple": "tuple", "VList": "list"}[k] + ("-of-futures" if "PFut" in json.dumps(p) else "")
+    return "int"
+
+
+def _pay_futs(p):
+    if p == "VNone":
+        return []
+    (k, a), = p.items()
+    if k == "PFut":
+        return [(a[0], a[1])]
+    if k in ("VTuple", "VList"):
+        return [f for x in a[0] for f in _pay_futs(x)]
+    return []
+
+
 def _strip(b):
     out = []
     for st in b:
         (k, a), = st.items()
         if k == "NAwait":
             out.append({"NAwait": [a[1]]})
+        elif k == "NValue":
+            out.append({"NValue": [_label(a[0])]})
         elif k == "NYield":
             out.append({"NYield": [_strip_aw(a[0])]})
         elif k == "NNest":
@@ -353,7 +498,15 @@ def compare(c, m, io):
 def distribution(cases):
     d = {"body_len": {}, "nested": 0, "failing_await": 0, "raising_body": 0, "exhaustive": 0, "malformed_ops": 0,
          "via_task": 0, "take_n": {}, "await_kinds": {}, "ops_len": {}, "trailing_await": 0, "no_values": 0,
-         "non_value_yields": {}, "bodies_with_non_value_yield": 0, "yield_first_after_advance": 0, "yield_after_await": 0}
+         "non_value_yields": {}, "bodies_with_non_value_yield": 0, "yield_first_after_advance": 0, "yield_after_await": 0,
+         "value_payloads": {}, "bodies_with_future_payload": 0, "future_payload_where": {}, "same_future_yielded_twice": 0}
+
+    def pays(b):
+        for pl, where in _value_sites(b):
+            pk = _pay_kind(pl)
+            d["value_payloads"][pk] = d["value_payloads"].get(pk, 0) + 1
+            if _pay_futs(pl):
+                d["future_payload_where"][where] = d["future_payload_where"].get(where, 0) + 1
 
     def kinds(b):
         for st in b:
@@ -384,6 +537,10 @@ def distribution(cases):
         d["yield_first_after_advance"] += 1 if any("NYield" in st and (j == 0 or "NValue" in b[j - 1]) for j, st in enumerate(b)) else 0
         d["yield_after_await"] += 1 if any("NYield" in st and j > 0 and ("NAwait" in b[j - 1] or "NYield" in b[j - 1]) for j, st in enumerate(b)) else 0
         kinds(b)
+        pays(b)
+        fids = [f for pl, _ in _value_sites(b) for f in _pay_futs(pl)]
+        d["bodies_with_future_payload"] += 1 if fids else 0
+        d["same_future_yielded_twice"] += 1 if len(fids) != len(set(fids)) else 0
         ol = len(c["ops"])
         d["ops_len"][str(min(ol, 8))] = d["ops_len"].get(str(min(ol, 8)), 0) + 1
         for o in c["ops"]:
@@ -425,9 +582,29 @@ def _tree_values(b):
     for st in b:
         (k, a), = st.items()
         if k == "NValue":
-            out.append({"TVal": [a[0]]})
+            out.append({"TVal": [_label(a[0])]})
         elif k == "NNest":
             out += _tree_values(a[0])
+    return out
+
+
+def _prev_kind(b, j):
+    if j == 0:
+        return "first-in-body"
+    k = next(iter(b[j - 1]))
+    return {"NValue": "directly-after-a-Value", "NAwait": "after-an-await", "NYield": "after-a-non-Value-yield",
+            "NNest": "after-a-nested-generator", "NRaise": "after-a-raise"}[k]
+
+
+def _value_sites(b, nested=False):
+    """(payload, where) of every Value the outermost body yields, in program order (bodies that cannot fail)"""
+    out = []
+    for j, st in enumerate(b):
+        (k, a), = st.items()
+        if k == "NValue":
+            out.append((a[0], ("nested:" if nested else "") + _prev_kind(b, j)))
+        elif k == "NNest":
+            out += _value_sites(a[0], True)
     return out
 
 
@@ -452,6 +629,20 @@ def monitors(c, io, build):
     handle_counted = True
     handle_expect = None     # what the task handed out by the last successful next() has to compute to, when it can be said
     exhausted = False        # a StopIteration / a completed list_of_generator has been seen
+    # the Values of the body as OBJECTS: (payload, where it sits), by index of the outermost body's Value yields
+    sites = _value_sites(body) if (whole_clean or (flat and not any("NRaise" in st for st in body))) else None
+    last_idx = -1            # index (among the body's Value yields) of the object delivered last
+    started_seen = set()
+    fut_where = {}
+    for pl, where in _value_sites(body):
+        for kind, fid in _pay_futs(pl):
+            fut_where.setdefault(fid, (kind, where))
+
+    def site_of(j):
+        if sites is not None and 0 <= j < len(sites):
+            return "%s:%s" % (_pay_kind(sites[j][0]), sites[j][1])
+        return "unknown"
+
     for i, (o, (r, pulls, stopped), ob) in enumerate(zip(ops, res, io["obs"])):
         name = _opname(o)
         pre, post = ob["pre"], ob["post"]
@@ -540,6 +731,50 @@ def monitors(c, io, build):
                 fs.append(dict(clause="iteration-in-order", site="task.value():%s" % why,
                                msg="the task returned by next() computed to %s, the next item in program order is %s (op %d)" % (got, handle_expect, i)))
 
+        # --- "exactly the Values": what the consumer receives IS the object the body put into the Value (whatever it is:
+        #     data, or a future the consumer wants as a future), each yielded object at most once, in program order
+        ident = ob.get("ident")
+        if ident is not None:
+            if lst is not None:
+                got = [(x, ix) for x, ix in zip(lst, ident) if x != "TEnd"]
+            elif rk == "RConst":
+                got = [(r["RConst"][0], ident[0])]
+            elif rk == "RItem" and not handle_counted and r["RItem"][0] != "TEnd":
+                got = [(r["RItem"][0], ident[0])]
+            else:
+                got = []
+            for x, ix in got:
+                later = [j for j in ix if j > last_idx]
+                if later:
+                    last_idx = later[0]
+                    continue
+                what = "not-an-object-the-body-yielded" if not ix else "object-delivered-again"
+                fs.append(dict(clause="value-is-the-yielded-object", site="%s:%s:%s" % (name, site_of(last_idx + 1), what),
+                               msg="%s delivered %s, which is not the object of the next Value the body yielded (Value number %d of the body: %s; "
+                                   "identity indices of the delivered object among the body's Values: %s) (op %d)" % (
+                                       name, json.dumps(x), last_idx + 2, site_of(last_idx + 1), ix, i)))
+                if not ix:
+                    last_idx += 1
+        if name == "ONext" and "handle_is_payload" in ob:
+            fid = ob["handle_is_payload"]
+            kind, where = fut_where.get(fid, ("?", "unknown"))
+            fs.append(dict(clause="value-is-the-yielded-object", site="next:future:%s:%s:payload-handed-out-as-the-task-to-wait-for" % (kind, where),
+                           msg="next() returned the very future the body put into a Value (payload %d, %s, %s): a consumer that waits for it "
+                               "receives that future's result, not the Value (op %d)" % (fid, kind, where, i)))
+        if name == "ONext" and rk == "RTask" and ob.get("handle_is_last_task") is False and "handle_is_payload" not in ob:
+            fs.append(dict(clause="value-is-the-yielded-object", site="next:task-is-not-the-generators-task",
+                           msg="next() returned a task that is not the generator's last_task (op %d)" % i))
+
+        # --- "and only those": a future inside a Value is data for the consumer; iterating the generator must not start it
+        for fid in ob.get("payload_started", []):
+            if fid in started_seen:
+                continue
+            started_seen.add(fid)
+            kind, where = fut_where.get(fid, ("?", "unknown"))
+            fs.append(dict(clause="payload-future-not-started", site="%s:%s:%s" % (name, kind, where),
+                           msg="%s started / computed the future that the body put into a Value (payload %d, %s, %s); nobody asked for "
+                               "its result (op %d)" % (name, fid, kind, where, i)))
+
         # --- list_of_generator returns all Values in program order
         if name == "OList" and not pending and expect is not None:
             if lst != expect:
@@ -625,6 +860,17 @@ def _shrink(c):
         yield {"body": body[:i] + body[i + 1:], "ops": ops, "meta": meta}
         if "NNest" in body[i]:
             yield {"body": body[:i] + body[i]["NNest"][0] + body[i + 1:], "ops": ops, "meta": meta}
+        if "NValue" in body[i]:
+            pl = body[i]["NValue"][0]
+            alts = []
+            if isinstance(pl, dict) and "PFut" in pl and pl["PFut"][0] != "PConst":
+                alts.append({"PFut": ["PConst", pl["PFut"][1]]})
+            if isinstance(pl, dict) and ("VTuple" in pl or "VList" in pl):
+                alts += list(next(iter(pl.values()))[0])
+            if isinstance(pl, dict) and "VInt" not in pl:
+                alts.append({"VInt": [i + 1]})
+            for alt in alts:
+                yield {"body": body[:i] + [{"NValue": [alt]}] + body[i + 1:], "ops": ops, "meta": meta}
         if "NAwait" in body[i] and body[i]["NAwait"][0] != "AConst":
             yield {"body": body[:i] + [{"NAwait": ["AConst", body[i]["NAwait"][1]]}] + body[i + 1:], "ops": ops, "meta": meta}
     for i, o in enumerate(ops):
